@@ -224,6 +224,57 @@ def array_range_is_safe(body, t, full):
     return 0 <= lo <= hi <= n
 
 
+def _same(a, b):
+    """term equality that ignores which named constant an integer literal came from"""
+    if isinstance(a, tuple) and isinstance(b, tuple):
+        if a and b and a[0] == 'int' and b[0] == 'int':
+            return a[1] == b[1]
+        return len(a) == len(b) and all(_same(x, y) for x, y in zip(a, b))
+    return a == b
+
+
+def path_safe_assert(body, block):
+    """path-sensitive discharge of an Assert: on every enumerated path through `block` the asserted condition is either a
+    constant that holds, or the very comparison the path has already branched on with the outcome the assert needs
+    (`if i < n { a[i] }`, `if i >= n { i = 0 } a[i]`)"""
+    cache = body.__dict__.get('_assert_sym')
+    if cache is None:
+        try:
+            s = lib.Sym(body, max_paths=3000)
+            s.run()
+            cache = s
+        except lib.Lost:
+            cache = False
+        body._assert_sym = cache
+    if not cache:
+        return None
+    n = 0
+    for p in cache.paths:
+        for e in p.effects:
+            if e[0] != 'assert' or e[3] != block:
+                continue
+            n += 1
+            c = e[2]
+            exp = bool(body.blocks[block]['term'].get('expected', True))
+            k = lib.term_int(c)
+            if k is not None:
+                if bool(k) != exp:
+                    return None
+                continue
+            want = lib.literal((c, ('not', (0,)) if exp else 0, block, 'bool'))
+            if want[3] is None:
+                return None
+            held = False
+            for cc in p.conds:
+                l = lib.literal(cc)
+                if l[0] == want[0] and _same(l[1], want[1]) and _same(l[2], want[2]) and l[3] is want[3]:
+                    held = True
+                    break
+            if not held:
+                return None
+    return 'on all %d paths through the site the checked comparison was already established (or folds to a constant)' % n if n else None
+
+
 def sites(ctx):
     out = []
     for body in ctx.f.body_list:
@@ -244,6 +295,8 @@ def sites(ctx):
                     out.append({'body': body.path, 'block': i, 'kind': 'assert', 'desc': 'const-safe:' + kind, 'sp': t['sp'], 'macro': macro, 'auto': 'operands are compile-time integers and the check holds'})
                     continue
                 why = ranges.prove_site(body, i, t)
+                if why is None:
+                    why = path_safe_assert(body, i)
                 if why is not None:
                     out.append({'body': body.path, 'block': i, 'kind': 'assert', 'desc': 'range-safe:' + kind, 'sp': t['sp'], 'macro': macro, 'auto': why})
                     continue
